@@ -74,12 +74,6 @@ if fid == 'F-46':
     g1 = ' '.join(set_value(source=parse(w['doc']), npath=w['path'][0], value=w['value']).split())
     g2 = ' '.join(set_value(source=parse(w['second_doc']), npath=w['path'][0], value=w['value']).split())
     out(g1 != w['expected'] or g2 != w['second_expected'], 'got %r / %r' % (g1, g2))
-if fid == 'F-64':
-    res = []
-    for t in (w['doc'], w['second_doc']):
-        try: parse(t)[w['key']]; res.append('found')
-        except KeyError: res.append('KeyError')
-    out(res == ['KeyError', 'KeyError'], 'doc[%r] gives %r' % (w['key'], res))
 if fid == 'F-63':
     g1 = ' '.join(set_value(source=parse(w['doc']), npath=w['path'][0], value=w['value']).split())
     out(g1 != w['expected'], 'got %r' % g1)
